@@ -290,12 +290,12 @@ def shard_main(ck, shard, nshards, only_case=None):
   mujoco, mjx, jax, jp = mjxload.load()
   lib = ck.lib('rel')
   worst = collections.defaultdict(float)
-  npoints = 3 if ck.quick else 6
+  npoints = 2 if ck.quick else 6
   quota = 1
   done = [0]
   nmodels = 14 if ck.quick else max(1, -(-ck.budget(6, 60) // nshards))
   t_start = time.time()
-  t_budget = float(os.environ.get('C45_TIME', 100 if ck.quick else 1200))
+  t_budget = float(os.environ.get('C45_TIME', 35 if ck.quick else 1200))
   names_seen = collections.Counter()
 
   def test(case):
